@@ -25,7 +25,7 @@ type pedCurve interface {
 	openCase(t *rapid.T) (desc string, nt bool, classes []string)
 	homCase(t *rapid.T) (desc string, nt bool, classes []string)
 	equivCase(t *rapid.T) (desc string, nt bool, classes []string)
-	keyCase(t *rapid.T) (desc string, nt bool, classes []string)
+	keyScheme() keyScheme
 }
 
 type ped[E algebra.PrimeGroupElement[E, S], S algebra.PrimeFieldElement[S]] struct {
